@@ -97,11 +97,14 @@ def getBitsUnchecked (b : BitVector) (index len : Nat) : M Nat := getBitsSlice b
 
 /-- `BitVector::get_bits` (repaired: no overflow in `index + len`) -/
 def getBits (b : BitVector) (index len : Nat) : M (Option Nat) :=
-  if len == 0 || len > 64 || index + len > b.nBits then pure none
+  if len == 0 || len > 64 || index > b.nBits || index + len > b.nBits then pure none
   else do let v ← getBitsUnchecked b index len; pure (some v)
 
-/-- `BitVectorMut::get_bits` (repaired: same condition as the immutable vector) -/
-def getBitsMut (b : BitVectorMut) (index len : Nat) : M (Option Nat) := getBits b index len
+/-- `BitVectorMut::get_bits`: the test suite pins `index + len == n_bits` to `None` here
+    (`>=` instead of `>`); recorded as a known finding of C08. -/
+def getBitsMut (b : BitVectorMut) (index len : Nat) : M (Option Nat) :=
+  if len == 0 || len > 64 || index > b.nBits || index + len ≥ b.nBits then pure none
+  else do let v ← getBitsUnchecked b index len; pure (some v)
 
 /-- `set_bits(index, len, bits)` (repaired `n_ones` accounting) -/
 def setBits (b : BitVectorMut) (index len bits : Nat) : M BitVectorMut := do
